@@ -539,7 +539,84 @@ def run(chk, facts, tier, only=None):
                                 where=f"{h['span']['file']}:{u.get('ln')}")
         chk.floor("unsafe blocks in decode-reachable code", n, 1)
 
-    for rid, desc, fn in (("C06.R1", "every recursion cycle on message data passes through a live depth guard", r1),
+    def r6():
+        """Work before any quota applies is proportional to the header: `TypeEnv::is_empty` (run by replace_empty on every type table) visits a
+        table row once because it memoises the outcome of every row, inhabited or not. A memo that forgets inhabited rows makes a chain of
+        records that mention the next row twice cost 2^n visits (a 400-byte header that never finishes)."""
+        h = c.fn(r"^candid::types::type_env::TypeEnv::is_empty$")
+        chk.analysed(h["key"])
+        memo = None
+        for p_ in h["params"]:
+            if p_.get("k") == "bind" and "BTreeMap" in str(p_.get("ty") or "") or (p_.get("k") == "bind" and "HashMap" in str(p_.get("ty") or "")):
+                memo = p_["n"]
+        if memo is None:
+            raise AnchorMissing("TypeEnv::is_empty: the memo parameter (a map from type name to Option<bool>) was not found")
+        drops = [x for x in walk(h["body"]) if x.get("k") == "mcall" and x["m"] in ("remove", "clear", "retain", "pop_first", "pop_last") and expr_path(x["recv"]) == memo]
+        chk.expect(not drops, "header-work:is_empty:memo-never-forgets",
+                   f"TypeEnv::is_empty removes entries from its memo (`{memo}.{drops[0]['m'] if drops else ''}`): a row whose outcome is forgotten is analysed again for "
+                   f"every mention, so `table_i = record {{ table_(i+1); table_(i+1) }}` costs 2^n visits before any decoding quota is consulted",
+                   where=f"{h['span']['file']}:{drops[0].get('ln') if drops else ''}", ok_detail="no remove/clear on the memo")
+        # the miss arm ends by recording the computed outcome unconditionally
+        miss = None
+        for m in nodes(h["body"], "match"):
+            if m.get("src") in (None, "Normal") and any(x.get("k") == "mcall" and x["m"] == "get" and expr_path(x["recv"]) == memo for x in walk(m["scrut"])):
+                for a in m["arms"]:
+                    if any((v or "").endswith("Option::None") for v in pat_variants_(a["pat"])) and not any((v or "").endswith("Option::Some") for v in pat_variants_(a["pat"])):
+                        miss = a["body"]
+        if miss is None:
+            raise AnchorMissing("TypeEnv::is_empty: `match memo.get(id) { None => .. }` not found")
+        blk = unblock(miss)
+        tail = unblock(blk.get("e")) if blk.get("k") == "block" and blk.get("e") else None
+        tail_name = tail["res"]["path"] if tail and tail.get("k") == "path" and (tail.get("res") or {}).get("kind") == "Local" else None
+        recorded = False
+        for st in (blk.get("stmts") or []) if blk.get("k") == "block" else []:
+            e_ = st.get("e") if st.get("k") == "semi" else None
+            e_ = unblock(e_) if e_ else None
+            if e_ and e_.get("k") == "mcall" and e_["m"] == "insert" and expr_path(e_["recv"]) == memo and len(e_["args"]) == 2:
+                v_ = unblock(e_["args"][1])
+                if v_.get("k") == "call" and (callee(v_) or "").endswith("Option::Some") and tail_name and any(
+                        y.get("k") == "path" and (y.get("res") or {}).get("path") == tail_name for y in walk(v_["args"][0])):
+                    recorded = True
+        chk.expect(recorded, "header-work:is_empty:every-outcome-memoised",
+                   "TypeEnv::is_empty must record the outcome it computed for a row (`memo.insert(id, Some(result))`, unconditionally, before returning it): "
+                   "recording only one of the two outcomes makes the analysis exponential in the length of the type table",
+                   where=f"{h['span']['file']}:{h['span']['lo']}", ok_detail="memo.insert(id, Some(result)) at the end of the miss arm")
+
+    def r10():
+        """The depth guard is what turns deep nesting into an error instead of a stack overflow: every successful `RecursionDepth::guard()`
+        has probed the remaining stack at the new depth. A probe that is skipped on some path (a cache of depths already probed, a counter
+        shared between values) lets a later, costlier-per-level value descend unprobed."""
+        b = c.body(r"^candid::utils::RecursionDepth::guard$")
+        chk.analysed(b.key)
+        probe_fns = {k for k, bb in c.bodies.items() if any((cal or "").endswith("stacker::remaining_stack") for _, _, cal in bb.call_sites())}
+        probes = [bi for bi, t, cal in b.call_sites() if cal and (cal in probe_fns or cal.endswith("stacker::remaining_stack")) and not b.is_cleanup(bi)]
+        if not probes:
+            raise AnchorMissing("RecursionDepth::guard: no call that probes the remaining stack (stacker::remaining_stack, directly or through a helper)")
+        oks = []
+        for bi, bl in enumerate(b.blocks):
+            if b.is_cleanup(bi):
+                continue
+            for st in bl["s"]:
+                r_ = st.get("r") or {}
+                if st.get("k") == "assign" and r_.get("k") == "agg" and str(r_.get("adt", "")).endswith("result::Result") and r_.get("variant") == "Ok":
+                    oks.append(bi)
+        if not oks:
+            raise AnchorMissing("RecursionDepth::guard: no `Ok(..)` construction found")
+        dom = b.dominators()
+        reach_ = b.reachable()
+        undominated = [bi for bi in oks if bi in reach_ and not any(p_ in dom.get(bi, ()) for p_ in probes)]
+        chk.expect(not undominated, "depth-guard:probes-on-every-success",
+                   "RecursionDepth::guard can return Ok without having probed the remaining stack on that call: the guard then admits a level of recursion "
+                   "unchecked, and a deep value (for instance `vec^n` decoded after `opt^n` on the same decoder) overflows the stack instead of being rejected "
+                   "with `Recursion limit exceeded`", where=f"{b.span['file']}:{b.span['lo']}", ok_detail="the stack probe dominates every Ok")
+
+    def pat_variants_(p_):
+        from facts import pat_variants
+        return pat_variants(p_)
+
+    for rid, desc, fn in (("C06.R10", "every successful depth guard has probed the stack", r10),
+                          ("C06.R9", "header analysis visits each type-table row once (is_empty memoises every outcome)", r6),
+                          ("C06.R1", "every recursion cycle on message data passes through a live depth guard", r1),
                           ("C06.R2", "arithmetic / bounds / index traps in decode-reachable code are discharged or reviewed", r2),
                           ("C06.R3", "allocations sized by message data follow a bounds check", r3),
                           ("C06.R4", "inventory of other panic sites in decode-reachable code", r4),
